@@ -754,6 +754,28 @@ pub fn run_c05(run: &Run) {
     }
     // CLI clause: --stmng / --twoval with every heuristic value (and none)
     crate::c15::cli_slice(run, &[1 << 8, 1 << 9], &[None, Some(0), Some(1), Some(2), Some(3)]);
+    // once more with a logger that accepts TRACE records (the long searches above have been joined)
+    crate::report::trace_logging(true);
+    for src in [Source::FamCompact(fam_a(2)), Source::FamCompact(fam_f(3, 1))] {
+        let res = run.par_family(
+            &format!("built-in heuristics x 3 entry points: {} with trace logging switched on", src.name()),
+            src.size(),
+            St::default,
+            |st, k| {
+                let c = src.get(k);
+                for h in 0..3 {
+                    for (kind, msg) in builtin_case(&c.text, &c.tts, h, None, st) {
+                        run.violation(&format!("trace-logging:{}", kind), format!("{} on {} (a logger accepting TRACE records is installed)", msg, c.text), json!({"type": "builtin", "text": c.text, "tts": c.tts, "heuristic": h, "trace_logging": true}));
+                    }
+                }
+            },
+            &|k| src.describe(k),
+        );
+        for st in res {
+            run.add_counts(0, st.calls, st.calls, 0);
+        }
+    }
+    crate::report::trace_logging(false);
     run.extra("max_loop_steps_observed", json!(max_steps));
     run.extra("loop_step_budget", json!(STEP_BUDGET));
     run.extra("states_are", json!("distinct ADFs explored"));
